@@ -72,7 +72,7 @@ def idx {α} (xs : List α) (i : Int) : Option α := if i < 0 then none else xs[
 structure Coin where
   Denom : String
   Amount : Int
-deriving Repr, DecidableEq
+deriving Repr, DecidableEq, Inhabited
 
 /-- `sdk.NewCoin` panics on a negative amount (the denomination is assumed well-formed) -/
 def newCoin (denom : String) (amount : Int) : Option Coin := if amount < 0 then none else some ⟨denom, amount⟩
@@ -92,10 +92,13 @@ def u64ToBe (n : Nat) : List Nat := (List.range 8).map fun i => (n / 256^(7 - i)
 def sliceBytes (bz : List Nat) (lo hi : Int) : Option (List Nat) :=
   if 0 ≤ lo ∧ lo ≤ hi ∧ hi ≤ (bz.length : Int) then some ((bz.drop lo.toNat).take (hi - lo).toNat) else none
 
+/-- `cpcutils.AbiEncodeBool`: one 32-byte word -/
+def abiBool (b : Bool) : List Nat := List.replicate 31 0 ++ [if b then 1 else 0]
+
 /-- an effect on something the translator does not interpret: the callee's path and its integer arguments -/
 structure Effect where
   name : String
   args : List Int
-deriving Repr, DecidableEq
+deriving Repr, DecidableEq, Inhabited
 
 end Evermint.Go
